@@ -128,3 +128,29 @@ func ParseSummary(o *Obs, withConsumption bool) string {
 	}
 	return b.String()
 }
+
+// PlainParseDump parses the case without the simulator (hooks installed but nil:
+// the real Go scheduler runs the goroutines) and returns the same canonical dump
+// RunParse produces. Used by the hook-transparency self-test.
+func PlainParseDump(c *Case) string {
+	var env *interp.ExecEnv
+	if len(c.Aliases) > 0 {
+		env = &interp.ExecEnv{Aliases: map[string]string{}}
+		for _, kv := range c.Aliases {
+			env.Aliases[kv[0]] = kv[1]
+		}
+	}
+	var src interface{}
+	switch c.Reader.Kind {
+	case "string":
+		src = c.Src
+	case "bytes":
+		src = []byte(c.Src)
+	case "reader":
+		src = gosim.NewSimByteReader(nil, c.Src, c.Reader)
+	default:
+		src = gosim.NewSimReader(nil, c.Src, c.Reader)
+	}
+	cmds, comments, err := parser.ParseCommands(env, "sim", src)
+	return fmt.Sprintf("cmds=%s\ncomments=%s\n%s", Dump(cmds, 0), Dump(comments, 0), DumpErr(err))
+}
